@@ -240,7 +240,22 @@ fn emit_case(out: &mut Out, rng: &mut Rng, models: &[TableDef], history: &[Migra
             Ok(n) => n.normalize().map(|nn| nn == n).unwrap_or(false),
             Err(_) => true,
         });
-        oracles.insert("c07".into(), json!({"self_empty": self_empty, "idempotent": idem}));
+        // respelling: every combination drawn from the rewriter must diff empty in both directions
+        let mut respell_fail: Option<Value> = None;
+        if gener::loader_accepts(models) {
+            for _ in 0..3 {
+                let r = gener::respell_models(rng, models);
+                let ab = diff_schemas(models, &r);
+                let ba = diff_schemas(&r, models);
+                let ok = matches!(&ab, Ok(p) if p.actions.is_empty()) && matches!(&ba, Ok(p) if p.actions.is_empty());
+                if !ok && respell_fail.is_none() {
+                    respell_fail = Some(json!({"respelled": r,
+                        "forward": ab.as_ref().map(|p| p.actions.iter().map(|a| a.to_string()).collect::<Vec<_>>()).map_err(|e| e.to_string()).unwrap_or_else(|e| vec![e]),
+                        "backward": ba.as_ref().map(|p| p.actions.iter().map(|a| a.to_string()).collect::<Vec<_>>()).map_err(|e| e.to_string()).unwrap_or_else(|e| vec![e])}));
+                }
+            }
+        }
+        oracles.insert("c07".into(), json!({"ok": self_empty && idem && respell_fail.is_none(), "self_empty": self_empty, "idempotent": idem, "respell": respell_fail}));
 
         let mut g = String::new();
         app(
